@@ -275,7 +275,7 @@ CHECKS = {
         test="TestC13", level="exploration", shards=16,
         tiers=dict(quick=dict(checks=40, timeout=600), thorough=dict(checks=2000, timeout=3000)),
         rule="rapid stores of 2-5 symbols sharing timeframe/group/schema (1-4 columns over all wire types, fixed or "
-             "variable; 1/8: last symbol with one retyped column) x 2-6 DataService.Query requests with symbol lists of "
+             "variable; 1/8: last symbol with one retyped column or the same columns in another order) x 2-6 DataService.Query requests with symbol lists of "
              "existing, missing and repeated names or '*', and column lists of subsets in any order, unknown names, "
              "duplicates and Epoch; oracle: per requested existing symbol the same rows as its single-symbol all-time "
              "query, only requested existing columns (+ time columns) with identical types and bytes, missing symbols "
@@ -367,7 +367,7 @@ CHECKS = {
         tiers=dict(quick=dict(checks=60, timeout=600), thorough=dict(checks=4000, timeout=3000)),
         rule="rapid sequences of 1-8 DataService requests (Create, Write, Query, GetInfo, Destroy; consecutive requests "
              "often reuse a key, e.g. create-then-destroy) whose keys are assembled from components {.., ., empty, ~, "
-             "backslash, names with spaces, unicode, 300-byte names, ..., ordinary} in 1-6 item components with a valid "
+             "backslash, names with spaces, unicode, 300-byte names, ..., the names of the directories around the data root and names sharing a prefix with the root (root, root2, root.bak, other, l5), ordinary} in 1-6 item components with a valid "
              "timeframe at any position and default or custom category lists; executed by a worker process chroot'ed "
              "into a throw-away tree whose data root lies six directories deep beside decoys (one shaped like a "
              "marketstore directory); oracle: a recursive (path, type, size, SHA-1) snapshot of everything outside the "
@@ -426,7 +426,7 @@ CHECKS = {
         test="TestC18", level="exploration", shards=16, race=True,
         tiers=dict(quick=dict(checks=3, timeout=900), thorough=dict(checks=120, timeout=3400)),
         rule="rapid concurrent programs built with the race detector: 2-6 writer goroutines x 20-120 single-row writes "
-             "over two fixed buckets and one variable-length bucket (6 intervals each, so writers collide), 1-4 reader "
+             "over two fixed buckets and one variable-length bucket (6 intervals each, so writers collide; one write in eight goes to the same interval of one of four later years, creating year files on the fly), 1-4 reader "
              "goroutines running all-time queries throughout, background WAL writer with 1-4ms flush, 5-40ms checkpoint "
              "and rotation every 1-3 checkpoints; every column of a row carries the same tag; oracle: no panic, no data "
              "race, no query error, every row returned to any reader is a whole row of an issued write to that "
